@@ -49,6 +49,10 @@ CHECKS = {
    text="Time-stepped model-based testing with live host timers: generated per-interval arrival patterns (absent/once/duplicated/reordered/stale, isolated single Announces, ids across 65535->0, stepsRemoved >= 255, own clock identity, up to 10 masters) and BMCA phases; after every BMCA an independent time-based reception record decides the necessary conditions (>= 2 receptions within 4 intervals + one BMCA period, stepsRemoved < 255, foreign identity; Passive must be explainable), the expiry bound (silent for 6 intervals + 1 BMCA period => not parent) and, for clean patterns with <= 8 masters, that the steadily announcing best master is the parent.",
    note="The sufficient clause is only asserted when no better-or-equal competitor was heard within 7 intervals + 2 BMCA periods (falling back to being master in between is allowed by the statement; see DESIGN.md section 8).",
    technique="model-based property testing over arrival schedules with a time-based reference record"),
+ "C11": dict(level="exploration", design="DESIGN.md §4 C11",
+   text="Model-based testing on boundary clocks with 2-3 ports: clean Announce streams from a synthetic parent and a rival whose contents change (whole-content and single-field changes), parent silence and take-over, receipt time-outs, run-time quality changes, BMCA and announce timers in generated order. Every emitted Announce (decoded by the reference codec) must (A) equal the data set getters read just before the call, (B) while a port is slave equal the parent's last delivered Announce with stepsRemoved+1, (C) when it names the instance as grandmaster carry the own priorities, stepsRemoved 0, the clock quality in force at the last completed BMCA (or a newer one) and own time properties; when the last BMCA left a master and no slave port the grandmaster named must be the instance itself.",
+   note="Both leap flags from the parent: the data set keeps Leap59. UTC offset compared only when flagged valid.",
+   technique="stateful model-based property testing with a reference of the expected Announce contents"),
 }
 NA_REASON = "check not built yet in this round (design in DESIGN.md §4); will be claimed once its check exists"
 
